@@ -29,7 +29,7 @@ ASSUMPTIONS = ["vmon/ref/dictmodel.py states the attribute/alias rule"]
 MONITORS = ["bfs_step", "smchart_step", "random_step"]
 REQUIRED = ["both_spellings_present", "alias_only", "standard_empty_alias_set", "delete_absent", "pseudo_alias_not_honoured",
             "smchart_refused_op", "same_pairs_in_another_insertion_order", "smchart_field_assigned_a_value_with_blanks_around_it",
-            "value_with_carriage_return_or_long_with_backslash_only"]
+            "value_with_carriage_return_or_long_with_backslash_only", "unrelated_key_that_needs_escaping_or_is_NOTEDATA"]
 
 # (object kind, attribute, second key).  Where the second key is an alias only for *another* class it must be inert.
 TARGETS = [
@@ -208,7 +208,9 @@ def compare_views(ctx, obj, m, attr, keys, label, extra):
     if m.kind != "sscchart" or any(k in m.d for k in ("NOTES", "NOTES2")):
         try:
             text = str(obj)
-            if m.kind == "sscchart":
+            if m.kind == "sscchart" and "NOTEDATA" in m.d:
+                back = want = None   # (re-parsing would start a new chart at that key: only the tokenizer view below applies)
+            elif m.kind == "sscchart":
                 from simfile.ssc import SSCSimfile
 
                 # through a simfile: SSCChart.from_str stops at the first NOTES/NOTES2 by design
@@ -367,12 +369,17 @@ def check_random(ctx, case):
     alias_keys = ["FREEZES", "ANIMATIONS", "NOTES2"]
     HARD = ["a\r\nb", "lone\rcr", "AC\\DC", "bg\\clip.avi " + "y" * 2100, "x" * 2050 + "\\", "two\nlines\r\n", "a:b", "1:2:3"]
     NEAR_MULTI = ["BPM", "DISPLAY", "ATTACK", "A", "S", "K"]   # unrelated keys that are substrings of the multi-value keys
+    # unrelated keys that need escaping when written (a key-only property included); for charts also the keyword NOTEDATA
+    ODD_KEYS = ["A:B", "K;", "S\\", "D//E"] + (["NOTEDATA"] if kind == "sscchart" else [])
     for step in range(200):
         a = rng.choice(attrs) if rng.random() < 0.6 else rng.choice(["stops", "notes"] if kind == "sscchart" else ["stops", "bgchanges"])
         r = rng.random()
         if r < 0.45:
-            key = rng.choice([a.upper(), rng.choice(alias_keys), UNRELATED, rng.choice(attrs).upper(), rng.choice(NEAR_MULTI)])
-            op = rng.choice([("setkey", key, rng.choice(VALUES + ["v%d" % step] + HARD)), ("delkey", key), ("getkey", key), ("in", key)])
+            key = rng.choice([a.upper(), rng.choice(alias_keys), UNRELATED, rng.choice(attrs).upper(), rng.choice(NEAR_MULTI), rng.choice(ODD_KEYS)])
+            op = rng.choice([("setkey", key, rng.choice(VALUES + ["v%d" % step] + HARD + ([None, None] if key in ODD_KEYS and kind != "sscchart" else []))),
+                             ("delkey", key), ("getkey", key), ("in", key)])
+            if key in ODD_KEYS and op[0] == "setkey":
+                ctx.feat("unrelated_key_that_needs_escaping_or_is_NOTEDATA")
         else:
             op = rng.choice([("setattr", rng.choice(VALUES + ["v%d" % step] + HARD)), ("delattr",), ("getattr",), ("iter",), ("len",)])
         if len(op) > 1 and op[-1] in HARD:
